@@ -196,3 +196,17 @@ claim("C08", "model_checking",
       "dimension (the planner's compound-unit logic is abstracted to path search); lru_cache contract.",
       "AST-extracted cache machine + z3 bounded model checking over symbolic histories", "DESIGN.md 4/C08",
       "stepbmc")
+
+claim("C16", "proof",
+      "Tables, terminals, rules and options are loaded on every run from the shipped _parser.py and from a "
+      "fresh artefact built from measured.lark by the Makefile's own command. z3 proves every terminal's "
+      "regular language equal (regex equivalence), and finds a bijection between the two LALR automata that "
+      "preserves start/end states, every action and goto and rule content: with equal terminals and the same "
+      "deterministic driver this is identical accept/reject and identical trees for EVERY input, no length "
+      "bound. Independently, z3 model-checks the synchronous product of the two automata for a reachable "
+      "disagreeing state pair (paths up to twice the number of states); a disagreement is completed to a "
+      "sentence and replayed through the real shipped parser and a real freshly generated parser.",
+      "Lark's runtime classes embedded in _parser.py are trusted (only DATA/MEMO compared); lark 1.3.1 from "
+      "/venv generates the fresh artefact; post-processing by black/isort/sed does not change data.",
+      "z3 regex equivalence + automaton isomorphism (unbounded) + product-automaton BMC", "DESIGN.md 4/C16",
+      "parsertables")
